@@ -446,7 +446,14 @@ def correspond(ctx, model):
         ctx.count(f"corpus:{name}")
     n = ctx.n(36, 130)
     kmax = ctx.n(5, 50)
+    import gc
+
+    import jax
+
     for it in range(n):
+        if it % 10 == 9:
+            jax.clear_caches()  # release the per-instance jitted closures (see c03.py)
+            gc.collect()
         for alg in G.ALGS:
             edge = it % 5 == 4
             recipe = G.gen_recipe(rng, alg, edge=edge)
